@@ -212,7 +212,7 @@ int write_macho(
   file.write_int32_at_offset(marker - markers.segment_start, markers.load_command_size);
 
   // Add code.
-  for (uint32_t i = memory->low_address; i <= memory->high_address; i++)
+  for (uint64_t i = memory->low_address; i <= memory->high_address; i++)
   {
     file.write_int8(memory->read8(i));
   }
